@@ -139,6 +139,15 @@ func isSyncMapOp(cl *ssa.Call, name string) bool {
 	return !miss
 }
 
+func inFamily(fam []*ssa.Function, g *ssa.Function) bool {
+	for _, f := range fam {
+		if f == g {
+			return true
+		}
+	}
+	return false
+}
+
 func (a *cbpAnchors) multi(m *cbpMore) *multiAnchors {
 	x := &multiAnchors{}
 	fn := m.multiConsume
@@ -168,11 +177,30 @@ func (a *cbpAnchors) multi(m *cbpMore) *multiAnchors {
 			family = append(family, f)
 		}
 	}
+	// package-level helpers the request path was split into (`shardKey(info, keys)`) belong to it as well
+	for k := 0; k < len(family) && k < 32; k++ {
+		core.EachInstr(family[k], func(i ssa.Instruction) {
+			cl, ok := i.(*ssa.Call)
+			if !ok {
+				return
+			}
+			g := cl.Call.StaticCallee()
+			if g == nil || len(g.Blocks) == 0 || g.Signature.Recv() != nil || core.FnPkgPath(g) != core.CBPPath || g.Parent() != nil {
+				return
+			}
+			for _, f := range family {
+				if f == g {
+					return
+				}
+			}
+			family = append(family, g)
+		})
+	}
 	sites := map[*ssa.Function][]*ssa.Call{}
 	for _, f := range family {
 		core.EachInstr(f, func(i ssa.Instruction) {
 			if cl, ok := i.(*ssa.Call); ok {
-				if g := cl.Call.StaticCallee(); g != nil && g != f && g.Signature.Recv() != nil && core.NamedOf(g.Signature.Recv().Type()) == x.recvT {
+				if g := cl.Call.StaticCallee(); g != nil && g != f && ((g.Signature.Recv() != nil && core.NamedOf(g.Signature.Recv().Type()) == x.recvT) || inFamily(family, g)) {
 					sites[g] = append(sites[g], cl)
 				}
 			}
@@ -600,7 +628,7 @@ func c10_3(c *core.Ctx, p *core.Prog) {
 		if !ok || acc.Phi == nil {
 			return true
 		}
-		if !isFieldLoad(acc.Base, x.keysF) {
+		if !isFieldLoad(acc.Base, x.keysF) && !isFieldLoad(core.Canon(core.ResolveParam(core.Canon(acc.Base))), x.keysF) {
 			cmsg = "Get's key is not an element of the processor's configured key list"
 			return false
 		}
